@@ -37,6 +37,32 @@ where wfl : List Policy → Bool
   | [] => true
   | p :: ps => WF p && wfl ps
 
+/-! ## what can be built at all -/
+
+/-- the value constraints of the constructors: `AbsLockTime::from_consensus` (1 ..= 0x7fffffff),
+`RelLockTime::from_consensus` (not 0, disable flag clear), `Threshold::new` (1 ≤ k ≤ n) — the
+only way to obtain a `Policy` value through the public API -/
+def constructible : Policy → Bool
+  | .atom (.after n) => decide (1 ≤ n) && decide (n ≤ 2147483647)
+  | .atom (.older n) => decide (n ≠ 0) && decide (n < 2147483648)
+  | .thresh k subs => decide (1 ≤ k) && decide (k ≤ subs.length) && go subs
+  | _ => true
+where go : List Policy → Bool
+  | [] => true
+  | p :: ps => constructible p && go ps
+
+/-- what `Policy::from_str` accepts when every threshold is written `thresh(k,…)`: in addition
+to `constructible`, a 1-of-n or n-of-n threshold in that spelling is refused (`IllegalOr` /
+`IllegalAnd`) -/
+def threshTextAcceptable : Policy → Bool
+  | .atom (.after n) => decide (1 ≤ n) && decide (n ≤ 2147483647)
+  | .atom (.older n) => decide (n ≠ 0) && decide (n < 2147483648)
+  | .thresh k subs => decide (1 < k) && decide (k < subs.length) && go subs
+  | _ => true
+where go : List Policy → Bool
+  | [] => true
+  | p :: ps => threshTextAcceptable p && go ps
+
 /-! ## `normalized` -/
 
 /-- the body of the `for sub in subs` loop of `normalized`: what one (already normalized) child
